@@ -196,9 +196,13 @@ func (n *networkAddressTranslator) translateOutbound(from Chunk) (Chunk, error) 
 
 			mapp := n.findOutboundMapping(oKey)
 			if mapp == nil {
-				// Create a new mapping
-				mappedPort := 0xC000 + n.udpPortCounter
-				n.udpPortCounter++
+				// Create a new mapping on a free port of the dynamic range
+				mappedPort, ok := n.allocUDPPort()
+				if !ok {
+					n.log.Debugf("[%s] drop outbound chunk %s, no free port", n.name, from.String())
+
+					return nil, nil // nolint:nilnil
+				}
 
 				mapp = &mapping{
 					proto:   from.SourceAddr().Network(),
@@ -298,6 +302,29 @@ func (n *networkAddressTranslator) translateInbound(from Chunk) (Chunk, error) {
 	}
 
 	return nil, errNonUDPTranslationNotSupported
+}
+
+// allocUDPPort returns a port of the dynamic range (0xC000-0xFFFF) that no
+// mapping uses. caller must hold the mutex.
+func (n *networkAddressTranslator) allocUDPPort() (int, bool) {
+	const base, size = 0xC000, 0x4000
+	for i := 0; i < size; i++ {
+		port := base + n.udpPortCounter
+		n.udpPortCounter = (n.udpPortCounter + 1) % size
+		iKey := fmt.Sprintf("udp:%s:%d", n.mappedIPs[0].String(), port)
+		m, used := n.inboundMap[iKey]
+		if !used {
+			return port, true
+		}
+		if time.Now().After(m.expires) {
+			// the port is only held by an expired mapping: reclaim it
+			n.removeMapping(m)
+
+			return port, true
+		}
+	}
+
+	return 0, false
 }
 
 // caller must hold the mutex.
